@@ -305,6 +305,13 @@ def _threaded_phases(payload, cases, out, nthreads):
 
         def tb():
             _time.sleep(0.15)
+            # public use of the library from another thread while the build is running
+            try:
+                if payload.get('mode', 'nrt') == 'nrt' and hasattr(_libsc3.main, 'reset'):
+                    _libsc3.main.reset()
+                    got['reset'] = 'ok'
+            except Exception as e:
+                got['reset'] = f'{type(e).__name__}: {e}'
             try: got['fast'] = bytes(SynthDef('fast', fast).as_bytes())
             except Exception as e: got['fast'] = f'{type(e).__name__}: {e}'
         th = [threading.Thread(target=ta), threading.Thread(target=tb)]
@@ -317,6 +324,7 @@ def _threaded_phases(payload, cases, out, nthreads):
                 probs.append(f'{k} definition built while the other thread was building: '
                              + (g if isinstance(g, str) else f'{len(g)} bytes') + f', built alone: {len(ref)} bytes')
         out[0]['slow_build'] = probs
+        out[0]['slow_build_reset'] = got.get('reset', 'n/a')
     except Exception as e:
         errors.append(f'slow-build phase: {type(e).__name__}: {e}')
     sys.setswitchinterval(old_si)
